@@ -13,6 +13,9 @@
 (*            recorded (float32) std                                            *)
 (*  captured: [present, n, sabs, ssum, ssq, amax, amin]                         *)
 (*  kind "analyse": only std is recorded (utils.ScaleTracker)                   *)
+(*  kind "track_real": values outside TLC's integers; fwd/bwd/cf/cb carry only  *)
+(*            `present`, the numeric verdicts arrive as fwd_bad / bwd_bad ("" =  *)
+(*            equal, otherwise the name of the first statistic that differs)     *)
 (***************************************************************************)
 EXTENDS TrackScales, Json, IOUtils
 Traces == JsonDeserialize(IOEnv.TRACE_FILE)
@@ -40,6 +43,12 @@ NodeVerdict(kind, n) ==
   ELSE IF n.float /\ ~n.has THEN "float_tensor_not_tracked"
   ELSE IF ~n.float THEN "ok"
   ELSE IF ~n.cf.present THEN "harness_no_capture"
+  ELSE IF kind = "track_real" THEN   \* non-integer data: the numeric comparison is done by the harness (float64 statistics of the captured tensor)
+       IF n.fwd_bad # "" THEN "fwd_metric_wrong_" \o n.fwd_bad
+       ELSE IF n.bwd.present /\ ~n.cb.present THEN "bwd_metrics_without_gradient"
+       ELSE IF ~n.bwd.present /\ n.cb.present THEN "bwd_metrics_missing"
+       ELSE IF n.bwd_bad # "" THEN "bwd_metric_not_total_gradient_" \o n.bwd_bad
+       ELSE "ok"
   ELSE IF kind = "track" /\ ~ExactOK(n.fwd, n.cf) THEN "fwd_metric_wrong_" \o WhichWrong(n.fwd, n.cf)
   ELSE IF ~StdOK(n.fwd, n.cf) THEN "fwd_metric_wrong_std"
   ELSE IF n.bwd.present /\ ~n.cb.present THEN "bwd_metrics_without_gradient"
